@@ -154,6 +154,34 @@ def check(env, rep, tier):
             # invariant established
             lo, hi = s.range(szx.aff) if isinstance(szx, IntV) else (0, 255)
             rep.ob("C13.3", "try_from|szx<=7", hi <= 7, "TryFrom<Vec<u8>> can produce size_exponent up to %s" % hi, site)
+        # ---- C13.5 accept exactly the encodable values: with the scalar injected as an arbitrary value whose
+        #      NUM part fits (scalar <= 0xFFFFF when NUM has 16 bits) no rejecting path may be feasible
+        uints = [find_impl_fn(prog, "core::convert::TryFrom", "option_value::OptionValueU%d" % w, "alloc::vec::Vec<u8>", "try_from") for w in (8, 16, 32, 64)]
+        upaths = {b["path"]: w for b, w in zip(uints, (8, 16, 32, 64)) if b is not None}
+        I = new_interp(prog)
+        I.no_join_bodies.add(dec["id"])
+        st = State()
+        arg = I.mat(st, prog.ty(dec["locals"][1]["ty"]), "value")
+        injected = []
+        top = (1 << (num_bits + 4)) - 1
+
+        def m_inject(I_, s, call):
+            w = upaths[call.path]
+            x = I_.fresh_int(s, "scalar", (w, False), 0, min(top, (1 << w) - 1))
+            injected.append(w)
+            from summaries import mk_ok
+            return [(s, mk_ok(StructV([x]), call.dest_ty))]
+        for pth in upaths:
+            I.extra_models[pth] = m_inject
+        I, res = run(prog, dec, args=[arg], st=st, I=I)
+        errs = [s for s, rv in res if isinstance(rv, EnumV) and 1 in rv.variants]
+        if not injected:
+            rep.missing("C13.5", "the unsigned option-value decoder the Block decoder reads its scalar with")
+        else:
+            rep.ob("C13.5", "decode|accepts-encodable", not errs and any(w * 1 >= num_bits + 4 for w in injected),
+                   "decoder: a Block option value whose NUM fits %d bits (scalar up to %#x) can be rejected (paths: %d), "
+                   "or the scalar is read with fewer than %d bits" % (num_bits, top, len(errs), num_bits + 4), site,
+                   sample={"rule": "C13.5", "scalar_bits": injected, "max_scalar": top, "reject_paths": len(errs)})
         # ---------------------------------------------------------- size()
         b = find_body(prog, BV + "::size")
         if b is None:
